@@ -524,7 +524,20 @@ def relation(m, line, node, observed_name):
     return "other-command"
 
 
-FEATURES = ("alias", "opt", "post", "tail")
+def corner(m, line, sigbase):
+    """Predicate on the case that separates two mechanisms which can produce the same kind of wrong outcome."""
+    lead, optpart, tail = line
+    cur, k = m.walk(lead)
+    cands = m.defaults[cur]
+    if sigbase.startswith("selection:declared-option-rejected") and optpart:
+        verdict, node, _ = expectation(m, line)
+        opt = m.opt_name(optpart[0])
+        if node in cands and any(opt not in m.opts[c] for c in cands[:cands.index(node)]):
+            return ":earlier-default-lacks-option"
+    if sigbase.startswith(("selection:default-choice", "args:arguments")) and len(tail) > 1 and len(optpart) < 2:
+        if k == len(lead) and any(tail[1] in m.words_of[c] for c in cands if m.kind[c] != ANON):
+            return ":tail-word-names-default"
+    return ""
 
 
 def reductions(m, line):
@@ -555,14 +568,10 @@ def check_tree(tree, tier, unknown, cap=20, run_checks=True):
     cnt = dict(lines=0, asserted=0, nontrivial=0, unasserted=0, runs=0, meta_alias=0, meta_option=0, meta_tail=0,
                undefined=0, selected=0)
     viols = []
-    outcome, failed = {}, {}
+    outcome = {}
 
     def add(sigbase, what, line, check, expected, observed, other=None):
-        flags = ""
-        if check == "oracle":
-            for feat, simpler in reductions(m, line):
-                if simpler in outcome and not failed.get(simpler):
-                    flags += "+" + feat
+        flags = corner(m, line, sigbase) if check == "oracle" else ""
         if len(viols) < cap:
             case = {"tree": [list(t) for t in tree], "line": [list(x) for x in line], "check": check, "unknown": unknown,
                     "tier": tier}
@@ -578,7 +587,6 @@ def check_tree(tree, tier, unknown, cap=20, run_checks=True):
         cnt["lines"] += 1
         verdict = expectation(m, line)[0]
         bad = judge(m, line, obs)
-        failed[line] = bool(bad)
         if verdict in ("undefined", "selected"):
             cnt["asserted"] += 1
             cnt[verdict] += 1
